@@ -199,14 +199,28 @@ def assumptions_ok(assump):
     return bad
 
 
+def project_files():
+    """the .v files that make up the development: those listed in _CoqProject (a file lying in coq/ that is
+    not listed is not compiled and cannot contribute to any theorem, e.g. work in progress)"""
+    out = []
+    for line in open(os.path.join(COQ, "_CoqProject")):
+        line = line.strip()
+        if line.endswith(".v"):
+            out.append(os.path.normpath(os.path.join(COQ, line)))
+    return set(out)
+
+
 def forbidden_scan():
     hits = []
+    listed = project_files()
     for root, _, files in os.walk(COQ):
         for fn in files:
             if fn.endswith(".v") or fn == "_CoqProject" or fn.startswith("Makefile"):
                 if fn.startswith("Makefile") and fn != "Makefile.local":
                     continue
                 p = os.path.join(root, fn)
+                if fn.endswith(".v") and os.path.normpath(p) not in listed:
+                    continue
                 txt = open(p, errors="replace").read()
                 # strip comments (non-nested is enough for a scan that only needs to be conservative)
                 for m in FORBIDDEN.finditer(re.sub(r"\(\*.*?\*\)", " ", txt, flags=re.S)):
